@@ -208,7 +208,9 @@ def drive(recipe):
     except Exception as e:          # an exception of the implementation is an observation
         t["exc_ser"] = type(e).__name__
         return t
-    t["text"] = [ord(c) if ord(c) < 256 else 0 for c in text]
+    # a horizontal tab is CIF white space; the values of the domain are printable ASCII, so a tab in written text can only be a
+    # separator the writer chose: the specification's parser (which knows the blank) is handed a blank in its place
+    t["text"] = [32 if c == "\t" else (ord(c) if ord(c) < 256 else 0) for c in text]
     try:
         if recipe.get("seed", 0) % 4 == 1 and all(ord(c) < 128 for c in text):
             # through a file: the path held another dictionary a moment ago and was read then (a file that keeps being
